@@ -202,3 +202,28 @@ def run(prop, tier, seed):
         return cov, lines, nviol, time.time() - t0
     finally:
         shutil.rmtree(wd, ignore_errors=True)
+
+
+def replay(d):
+    """Re-runs one recorded call sequence on a real bar and explains it with the complete transition relation."""
+    import shutil
+    wd = core.workdir("replay")
+    try:
+        binary = core.build_harness(wd)
+        edges, _, _ = edges_from_tlc("BarStateEdges.cfg")
+        succ, proj = build(edges)
+        roots = [r for r in inits(proj) if proj[r]["total"] == d["total"]]
+        if not roots:
+            raise core.Infra("initial total %s is outside the specification's constants" % d["total"])
+        ops = [tuple(o) for o in d["ops"]]
+        seqs = [{"id": 0, "total": d["total"], "ops": [{"op": o, "a": a, "f": fl} for (o, a, fl) in ops]}]
+        obs = run_go(binary, wd, seqs, 1)
+        res = explain(succ, proj, roots[0], ops, obs[0])
+        if res is None:
+            print("replayed %d calls: the getters agree with BarState.tla (recorded: %s)" % (len(ops), d.get("observed")))
+            return 0
+        idx, allowed, ob = res
+        print("BROKEN after %s: got %s, BarState.tla allows %s" % (ops[:idx + 1], ob, sorted({(proj[s]["current"], proj[s]["completed"], proj[s]["aborted"], proj[s]["refill"]) for s in allowed})[:6]))
+        return 1
+    finally:
+        shutil.rmtree(wd, ignore_errors=True)
